@@ -31,7 +31,9 @@ TRUSTED = [
     "partial function of the unit spelling class) and error_reporter.sort_issues; tied by the correspondence run on "
     "(code, severity, row, column) multisets and on the exception type",
     "the string-level validator (run_basic_checks, run_full_string_checks, check_for_banned_tags, "
-    "validate_temporal_relations, bool(HedString)) is NOT modelled: it is a Section variable of every theorem and is "
+    "validate_temporal_relations, bool(HedString)) is NOT modelled (the implementation-side oracle, however, does its "
+    "own Onset/Offset/Inset bookkeeping from the statement, class SpecOnsets, so faults of the shared OnsetValidator "
+    "are seen): it is a Section variable of every theorem and is "
     "supplied by the implementation itself in the correspondence run",
     "abstraction done by the harness: cell text -> id, 'empty or n/a' flag, Delay unit spelling class from the schema's "
     "derivative_units tables, times as integers in microseconds (generated onsets are dyadic or decimal strings with up "
@@ -55,6 +57,9 @@ ASSUMPTIONS = [
     "of C07_row_equals_string is gone with fix-F4; C07_shuffle_invariant (full, temporal issues included) speaks about "
     "files whose onsets are all numeric, as the property's clause does",
     "implementation-side oracle: testing on generated tables, bounded by the generators (histogram in evidence)",
+    "tested only (not representable in the model): the kind of column labels (text vs. the numbers of a headerless "
+    "file; sort_issues TypeError repaired by 2e53521) and the case-insensitive matching of definition names by the "
+    "temporal bookkeeping (a Section variable of the theorems; the oracle has its own bookkeeping, SpecOnsets)",
     "C07_history_* are theorems about the operation-sequence model (the object's state is its table); that the real "
     "object has no other state that validation reads is tied by the history stream of the correspondence run (testing)",
 ]
@@ -77,20 +82,23 @@ TEMPORAL_WORDS = ("onset", "offset", "inset")
 
 SIDECAR_PLAIN = {
     "cat": {"HED": {"a": "Red", "b": "(Blue, Green)", "c": "Nonsense", "d": "(Def/MyDef, Onset)",
-                    "e": "(Def/MyDef, Offset)", "f": "Item/Sound", "g": "Red,", "h": "(Delay/1 s, (Square))"}},
+                    "e": "(Def/MyDef, Offset)", "f": "Item/Sound", "g": "Red,", "h": "(Delay/1 s, (Square))",
+                    "i": "(Def/mydef, Offset)", "j": "(Def/MYDEF, Inset)"}},
     "val": {"HED": "Label/#"},
     "defs": {"HED": {"d1": "(Definition/MyDef, (Action))", "d2": "(Definition/Other/#, (Label/#))"}},
 }
 SIDECAR_REFS = {
     "cat": {"HED": {"a": "Red, {val}", "b": "(Blue, {val})", "c": "Nonsense, {val}", "d": "(Def/MyDef, Onset), {val}",
-                    "e": "(Def/MyDef, Offset)", "f": "({val}, Item/Sound)", "g": "Red,", "h": "{val}, {val}"}},
+                    "e": "(Def/MyDef, Offset)", "f": "({val}, Item/Sound)", "g": "Red,", "h": "{val}, {val}",
+                    "i": "(Def/mydef, Offset)", "j": "(Def/MYDEF, Inset), {val}"}},
     "val": {"HED": "Label/#"},
     "defs": {"HED": {"d1": "(Definition/MyDef, (Action))", "d2": "(Definition/Other/#, (Label/#))"}},
 }
 # sidecar with a reference to a column that does not exist (INVALID_COLUMN_REF, no row/column label)
 SIDECAR_BADREF = {
     "cat": {"HED": {"a": "Red, {nosuch}", "b": "(Blue, Green)", "c": "Nonsense", "d": "(Def/MyDef, Onset)",
-                    "e": "(Def/MyDef, Offset)", "f": "Item/Sound", "g": "Red,", "h": "Square"}},
+                    "e": "(Def/MyDef, Offset)", "f": "Item/Sound", "g": "Red,", "h": "Square",
+                    "i": "(Def/mydef, Offset)", "j": "(Def/MYDEF, Inset)"}},
     "val": {"HED": "Label/#"},
     "defs": {"HED": {"d1": "(Definition/MyDef, (Action))", "d2": "(Definition/Other/#, (Label/#))"}},
 }
@@ -106,7 +114,10 @@ ROWLEVEL_CELLS = ["Red, Red", "(Red, Blue), (Red, Blue)", "Onset", "(Onset)", "D
 TEMPORAL_CELLS = ["(Def/MyDef, Onset)", "(Def/MyDef, Offset)", "(Def/MyDef, Inset)", "(Def/mydef, Offset)",
                   "(Def/Other/3, Onset, (Red))", "(Def/Other/3, Offset)", "(Def/Other/4, Offset)",
                   "(Def/MyDef, Onset), (Def/MyDef, Offset)", "(Def/MyDef, Onset), (Def/mydef, Onset)",
-                  "(Def/Other/3, Inset, (Blue))"]
+                  "(Def/Other/3, Inset, (Blue))",
+                  # the same event written with another letter case of the definition name (names are case-insensitive)
+                  "(Def/MYDEF, Offset)", "(Def/mydef, Inset)", "(Def/myDef, Onset)", "(Def/other/3, Offset)",
+                  "(Def/OTHER/3, Inset, (Red))"]
 INNER = ["Red", "Blue", "Square", "(Green)", "Red, Red", "Nonsense", "Square, Blue"]
 # temporal markers that share the top-level group of the Delay tag (the form the bookkeeping sees)
 INNER_FLAT = ["Def/MyDef, Onset", "Def/MyDef, Offset", "Def/Other/3, Onset, (Red)", "Def/Other/3, Offset", "Def/MyDef, Inset"]
@@ -216,6 +227,28 @@ def rnd_us(p):
 def make_input(case, rows):
     import pandas as pd
     from hed.models import TabularInput, Sidecar
+    if case.get("kind") == "sheet":
+        # the other entry: SpreadsheetInput with tag columns (by number or name), with or without a header line;
+        # without one the column labels are the numbers 0, 1, ... and the first data row is file row 1
+        from hed.models import SpreadsheetInput
+        header = case["header"]
+        kw = {"tag_columns": list(case["tag_columns"]), "name": "f"}
+        if case.get("prefix"):
+            kw["column_prefix_dictionary"] = {(int(k) if str(k).isdigit() and not header else k): v
+                                              for k, v in case["prefix"].items()}
+        if case.get("tsv"):
+            p = os.path.join(case["_dir"], "sheet.tsv")
+            with open(p, "w") as f:
+                if header:
+                    f.write("\t".join(case["cols"]) + "\n")
+                for r in rows:
+                    f.write("\t".join(r) + "\n")
+            return SpreadsheetInput(p, has_column_names=header, **kw)
+        if header:
+            df = pd.DataFrame([list(r) for r in rows], columns=list(case["cols"]), dtype=str)
+        else:
+            df = pd.DataFrame([list(r) for r in rows], dtype=str)     # default integer column labels
+        return SpreadsheetInput(df, has_column_names=header, **kw)
     side = Sidecar(io.StringIO(json.dumps(SIDECARS[case["sidecar"]])))
     if case.get("tsv"):
         d = case["_dir"]
@@ -256,6 +289,9 @@ def describe(case, rows, shared=None):
     sch = schema()
     t = make_input(case, rows)
     cols = list(case["cols"])
+    header = not (case.get("kind") == "sheet" and not case["header"])
+    if not header:
+        cols = list(range(len(cols)))
     has_onset = "onset" in cols
     dd = t._mapper.get_def_dict(sch)
     hv = HedValidator(sch, def_dicts=dd)
@@ -300,7 +336,7 @@ def describe(case, rows, shared=None):
         out_rows.append({"onset": onset, "cells": cl, "bad": bad, "dtext": dtext, "delays": delays, "series": s})
     return {"rows": out_rows, "cats": [colrank[c] for c in cats], "texts": {v: k for k, v in texts.items()},
             "basic": dict(basic), "pre": pre, "npost": npost, "colname": {v: k for k, v in colrank.items()},
-            "has_onset": has_onset, "hed_cols": hed_cols, "nomodel": nomodel,
+            "has_onset": has_onset, "hed_cols": hed_cols, "nomodel": nomodel, "header": header, "adj": 2 if header else 1,
             "has_refs": bool([r for r in t.get_column_refs() if r in t.columns])}
 
 
@@ -309,7 +345,7 @@ def model_line(desc, fixed=UNIT_FIXED):
 
 
 def cfg_sx(desc, fixed=UNIT_FIXED):
-    return [1, 1 if desc["has_onset"] else 0, 1 if (desc["has_refs"] and REFS_SCRAMBLE) else 0, desc["cats"],
+    return [1 if desc.get("header", True) else 0, 1 if desc["has_onset"] else 0, 1 if (desc["has_refs"] and REFS_SCRAMBLE) else 0, desc["cats"],
             1 if fixed else 0, len(desc["pre"]), desc["npost"], FIXED, FIXED, FIXED]
 
 
@@ -461,8 +497,12 @@ class Expander:
         from hed.validator import HedValidator
         from hed.validator.onset_validator import OnsetValidator
         self.sch = schema()
-        side = Sidecar(io.StringIO(json.dumps(SIDECARS[case["sidecar"]])))
-        self.dd = side.get_def_dict(self.sch)
+        if case.get("kind") == "sheet":
+            from hed.models.definition_dict import DefinitionDict
+            self.dd = DefinitionDict(None, self.sch)
+        else:
+            side = Sidecar(io.StringIO(json.dumps(SIDECARS[case["sidecar"]])))
+            self.dd = side.get_def_dict(self.sch)
         self.hv = HedValidator(self.sch, def_dicts=self.dd)
         self.desc = desc
         self._cache = {}
@@ -624,10 +664,51 @@ def string_level(exp, text):
     return Counter(i["code"] for i in exp.hv.validate(hs, allow_placeholders=False) if int(i["severity"]) == ERR)
 
 
+class SpecOnsets:
+    """Onset/Offset/Inset bookkeeping written from the statement, INDEPENDENT of hed.validator.onset_validator:
+    an event is identified by its definition name with value, compared case-insensitively; per time point each name
+    acts once (a second use is an error and has no effect); Onset opens, Offset needs an open event and closes it,
+    Inset needs an open event.  Only the parse tree of HedString is used."""
+    MARKERS = ("onset", "offset", "inset")
+
+    def __init__(self):
+        self.open = set()
+
+    def time_point(self, hs):
+        from hed.models.hed_tag import HedTag
+        errors = 0
+        used = set()
+        for group in hs.groups():
+            marker = next((t for t in group.tags() if t.short_base_tag.casefold() in self.MARKERS), None)
+            if marker is None:
+                continue
+            defs = []
+            for child in group.children:
+                if isinstance(child, HedTag):
+                    if child.short_base_tag.casefold() == "def":
+                        defs.append(child)
+                else:
+                    defs += [t for t in child.tags() if t.short_base_tag.casefold() == "def-expand"]
+            if not defs:
+                continue
+            name = defs[0].extension.casefold()
+            if name in used:
+                errors += 1
+                continue
+            used.add(name)
+            kind = marker.short_base_tag.casefold()
+            if kind == "onset":
+                self.open.add(name)
+            elif name not in self.open:
+                errors += 1
+            elif kind == "offset":
+                self.open.discard(name)
+        return errors
+
+
 def temporal_expected(exp, desc):
     """Independent bookkeeping: markers take effect in order of onset + Delay; {row index: count} or None."""
     from hed.models import HedString
-    from hed.validator.onset_validator import OnsetValidator
     et = effective_times(desc)
     if et is None:
         return None
@@ -654,14 +735,14 @@ def temporal_expected(exp, desc):
         pieces.append((tm, seq, k, txt))
         seq += 1
     pieces.sort(key=lambda x: (x[0], x[1]))
-    ov = OnsetValidator()
+    ov = SpecOnsets()
     out = Counter()
     for tm, grp in itertools.groupby(pieces, key=lambda x: x[0]):
         grp = list(grp)
         text = ",".join(g[3] for g in grp)
         hs = HedString(text, exp.sch, exp.hv._def_validator)
         if hs:
-            n = len(ov.validate_temporal_relations(hs))
+            n = ov.time_point(hs)
             if n:
                 out[grp[0][2]] += n
     return out
@@ -689,6 +770,7 @@ def oracle(case, tab, exp, res, tag):
         res.report("never-raises", payload, f"{impl['exn']}: {impl['msg']} in {impl['frames'][-3:]}", fid=fid)
         return None
     n = len(desc["rows"])
+    adj = desc.get("adj", ADJ)
     issues = impl["issues"]
     fclass = finding_class(desc)
     hedcols = set(desc["hed_cols"])
@@ -702,12 +784,12 @@ def oracle(case, tab, exp, res, tag):
             if col is not None:
                 res.report("labels", payload, f"issue {code} has a column but no row", fid=fclass)
             continue
-        if not (ADJ <= row <= n + ADJ - 1):
-            res.report("labels", payload, f"issue {code} labelled row {row}, file has rows {ADJ}..{n + ADJ - 1}", fid=fclass)
+        if not (adj <= row <= n + adj - 1):
+            res.report("labels", payload, f"issue {code} labelled row {row}, file has rows {adj}..{n + adj - 1}", fid=fclass)
             continue
         if col is None:
             continue
-        r = desc["rows"][row - ADJ]
+        r = desc["rows"][row - adj]
         ok = False
         if code == "SIDECAR_KEY_MISSING":
             ok = col in catcols and any(desc["colname"][b] == col for b in r["bad"])
@@ -727,10 +809,10 @@ def oracle(case, tab, exp, res, tag):
             want = Counter(code for code, sev in desc["basic"][cid] if sev == ERR)
             if want:
                 clean = False
-            got = Counter(code for code, sev, col in by_row.get(k + ADJ, []) if sev == ERR and col == desc["colname"][cr])
+            got = Counter(code for code, sev, col in by_row.get(k + adj, []) if sev == ERR and col == desc["colname"][cr])
             if want - got:
                 res.report("cell-errors-kept", payload,
-                           f"row {k + ADJ} column {desc['colname'][cr]}: cell errors {dict(want)} reported {dict(got)}",
+                           f"row {k + adj} column {desc['colname'][cr]}: cell errors {dict(want)} reported {dict(got)}",
                            fid=fclass)
         if clean:
             clean_rows.append(k)
@@ -743,7 +825,7 @@ def oracle(case, tab, exp, res, tag):
         r = desc["rows"][k]
         if tied is None or k in tied:
             continue          # same-time merging with another row: not covered by the statement
-        got = Counter(code for code, sev, col in by_row.get(k + ADJ, []) if sev == ERR)
+        got = Counter(code for code, sev, col in by_row.get(k + adj, []) if sev == ERR)
         want = string_level(exp, r["series"])
         if desc["has_onset"] and (r["onset"] is not None or not FIXED):
             if r["onset"] is not None and texp is not None:
@@ -759,11 +841,11 @@ def oracle(case, tab, exp, res, tag):
                                               if tg.short_base_tag in ("Onset", "Offset", "Inset", "Delay", "Duration"))
         if got != want:
             res.report("row-equals-string", payload,
-                       f"row {k + ADJ} '{r['series']}': file reports {dict(got)}, string validation {dict(want)}", fid=fclass)
+                       f"row {k + adj} '{r['series']}': file reports {dict(got)}, string validation {dict(want)}", fid=fclass)
     # multiset with rows replaced by their identity (the row content incl. onset), for the shuffle clause
     ident = Counter()
     for code, sev, row, col in issues:
-        rid = None if row is None or not (ADJ <= row <= n + ADJ - 1) else tuple(tab["rows"][row - ADJ])
+        rid = None if row is None or not (adj <= row <= n + adj - 1) else tuple(tab["rows"][row - adj])
         ident[(code, sev, rid, col)] += 1
     return ident
 
@@ -1011,7 +1093,7 @@ def gen_case(rng, tier):
             elif c == "HED":
                 r.append(gen_hed_cell(rng, profile))
             elif c == "cat":
-                r.append(rng.choice(["a", "b", "c", "d", "e", "f", "g", "h", "n/a", "zz", "a", "b", "f"]))
+                r.append(rng.choice(["a", "b", "c", "d", "e", "f", "g", "h", "i", "j", "n/a", "zz", "a", "b", "f"]))
             elif c == "val":
                 r.append(rng.choice(VALUES))
             else:
@@ -1021,12 +1103,13 @@ def gen_case(rng, tier):
         if related and rng.random() < 0.75:      # markers of ONE definition: their time order matters
             if "HED" in cols:
                 r[cols.index("HED")] = rng.choice(["(Def/MyDef, Onset)", "(Def/MyDef, Offset)", "(Def/MyDef, Inset)",
-                                                   "(Def/MyDef, Offset), Red", "(Def/mydef, Onset)",
+                                                   "(Def/MyDef, Offset), Red", "(Def/mydef, Onset)", "(Def/MYDEF, Offset)",
+                                                   "(Def/mydef, Inset)", "(Def/myDef, Offset)",
                                                    "(Delay/1 s, Def/MyDef, Onset)", "(Delay/2 s, Def/MyDef, Offset)",
                                                    "(Delay/0.5 s, Def/MyDef, Offset)", "(Delay/3 seconds, Def/MyDef, Inset)",
                                                    "(Def/MyDef, Onset), (Delay/1.5 s, Def/MyDef, Offset)"])
             elif "cat" in cols:
-                r[cols.index("cat")] = rng.choice(["d", "e", "e"])
+                r[cols.index("cat")] = rng.choice(["d", "e", "i", "j"])
         rows.append(r)
     if n <= 3 and rng.random() < 0.5:
         perms = [list(p) for p in itertools.permutations(range(n))][1:]
@@ -1085,6 +1168,71 @@ def gen_history(rng, tier):
             ops.append(["validate"])
     case["ops"] = ops
     return case
+
+
+def gen_sheet(rng, tier):
+    """SpreadsheetInput: tag columns given by number or name, optional value column (column_prefix_dictionary), with a
+    header line or WITHOUT one (labels are the numbers 0, 1, ...; the first data row is file row 1)"""
+    header = rng.random() < 0.45
+    m = rng.choice([1, 2, 2, 3, 3, 4])
+    names = rng.sample(["tags_a", "tags_b", "notes", "label", "more_tags"], m)
+    with_onset = header and rng.random() < 0.3
+    pos = list(range(m))
+    ntag = rng.randint(1, m)
+    tagpos = sorted(rng.sample(pos, ntag))
+    if 0 not in tagpos and rng.random() < 0.6:
+        tagpos[0] = 0
+        tagpos = sorted(set(tagpos))
+    rest = [p for p in pos if p not in tagpos]
+    prefix = {}
+    if rest and rng.random() < 0.35:
+        p = rng.choice(rest)
+        prefix[str(p) if not header else names[p]] = rng.choice(["Label/", "Label"])
+    cols = list(names)
+    tag_columns = [(names[p] if (header and rng.random() < 0.6) else p) for p in tagpos]
+    n = rng.choice([1, 2, 2, 3, 3, 4, 5])
+    profile = "tsv" if rng.random() < 0.25 else "mixed"
+    rows = []
+    for _ in range(n):
+        r = []
+        for p in pos:
+            if p in tagpos:
+                r.append(gen_hed_cell(rng, profile))
+            elif (str(p) in prefix) or (names[p] in prefix):
+                r.append(rng.choice(VALUES))
+            else:
+                r.append(rng.choice(["1", "junk", "n/a", "Red, Red"]))
+        if profile == "tsv":
+            r = [x if x != "" else "n/a" for x in r]
+        rows.append(r)
+    perms = []
+    if with_onset:
+        cols = ["onset"] + cols
+        tag_columns = [(t + 1 if isinstance(t, int) else t) for t in tag_columns]
+        ons = rng.sample(range(0, 200), n)
+        rows = [[fmt_onset(o / 8.0)] + r for o, r in zip(ons, rows)]
+        p = list(range(n))
+        rng.shuffle(p)
+        if p != list(range(n)):
+            perms.append(p)
+    return {"kind": "sheet", "header": header, "cols": cols, "tag_columns": tag_columns, "prefix": prefix, "rows": rows,
+            "sidecar": "plain", "perms": perms, "tsv": profile == "tsv"}
+
+
+def sheet_corpus():
+    cs = []
+
+    def mk(rows, tag_columns, header=False, cols=None, tsv=False, prefix=None):
+        cs.append({"kind": "sheet", "header": header, "cols": cols or [f"c{i}" for i in range(len(rows[0]))],
+                   "tag_columns": tag_columns, "prefix": prefix or {}, "rows": [list(r) for r in rows], "sidecar": "plain",
+                   "perms": [], "tsv": tsv})
+    # headerless: a row with a cell issue (numeric column label) AND a row-level issue (no label)
+    mk([["Nonsense", "Red, Red"], ["Red", "(Blue"], ["Green", "Green"]], [0, 1])
+    mk([["Bad tag!", "Nonsense"], ["Red", "Blue"]], [0, 1], tsv=True)
+    mk([["junk", "Red, Red", "x"], ["junk", "Red/", "n/a"]], [1], prefix={"2": "Label/"})
+    # with a header line, tag columns by name and by number
+    mk([["Nonsense", "Red, Red"], ["Red", "Red"]], ["tags_a", 1], header=True, cols=["tags_a", "tags_b"])
+    return cs
 
 
 def history_corpus():
@@ -1168,7 +1316,10 @@ def run(tier, seed, res, model_ok=True, proof_ok=True):
     if not proof_ok:
         ngen *= 3
     fixed = corpus() + spelling_corpus()
-    cases = fixed + [gen_case(rng, tier) for _ in range(ngen)]
+    nsheet = 120 if tier == "quick" else 1500
+    if not proof_ok:
+        nsheet *= 3
+    cases = fixed + sheet_corpus() + [gen_case(rng, tier) for _ in range(ngen)] + [gen_sheet(rng, tier) for _ in range(nsheet)]
     nhist = 150 if tier == "quick" else 1500
     if not proof_ok:
         nhist *= 3
@@ -1251,6 +1402,10 @@ def run(tier, seed, res, model_ok=True, proof_ok=True):
             if c.get("tsv"):
                 hist["tsv_file"] += 1
             hist["permutations"] += len(c.get("perms", []))
+            if c.get("kind") == "sheet":
+                hist["spreadsheet_input"] += 1
+                if not c["header"]:
+                    hist["headerless"] += 1
             if s.get("history"):
                 hist["histories"] += 1
                 hist["history_validations"] += len(s["tables"])
@@ -1266,11 +1421,13 @@ def run(tier, seed, res, model_ok=True, proof_ok=True):
                 "and 10, compared exactly as integers of microseconds, "
                 "optionally curly-brace references) each with up to 5 row permutations (all permutations for half of "
                 "the tables with <=3 rows) + "
+                f"{nsheet} SpreadsheetInput tables (tag columns by number or name, optional value column, with or WITHOUT a "
+                "header line: numeric column labels, first data row = file row 1; dataframe or .tsv) + "
                 f"{len(hcases)} histories on ONE input object (validate / read the assembled frame / set_cell with a "
                 "HedString or HedString-like value / write through .dataframe incl. the onset column / "
                 "convert_to_short / convert_to_long / validate again, 1-3 rounds); every table, every permuted table and "
                 "every validation point of a history is one evaluation; non-trivial = at least two rows or a Delay group",
-        "samples": [strip(cases[0]), strip(cases[len(fixed)]), strip(cases[-1])],
+        "samples": [strip(cases[0]), strip(cases[len(fixed) + 5]), strip(cases[-1])],
         "histogram": dict(hist),
         "oracle_reports": dict(clause_hits),
         "disagreements_checked": disagreements,
